@@ -160,6 +160,92 @@ def instr(l):
     raise Bad("unsupported instruction: " + l)
 
 
+# ---------- the scalar kernels (Model/ScalarAsm.v) ----------
+SCALAR_TARGETS = ["mulByteSliceLEUnsafe", "mulAndAddByteSliceLEUnsafe"]
+SREGS = {"AX": "SAX", "BX": "SBX", "CX": "SCX", "SI": "SSI", "R8": "SR8", "R9": "SR9", "R10": "SR10", "R11": "SR11"}
+
+
+def sreg(s):
+    s = s.strip()
+    if s not in SREGS:
+        raise Bad("register not modelled for the scalar kernels: " + s)
+    return SREGS[s]
+
+
+def smem(s):
+    """disp(BASE)(IDX*2) -> (disp, base, idx)"""
+    m = re.match(r"(\d*)\((\w+)\)\((\w+)\*2\)$", s.strip())
+    if not m:
+        raise Bad("scaled-index memory operand expected: " + s)
+    return int(m.group(1) or "0"), sreg(m.group(2)), sreg(m.group(3))
+
+
+def sinstr(l):
+    m = re.match(r"(\w+)\s+(.*)$", l)
+    if not m:
+        raise Bad("cannot parse: " + l)
+    op, args = m.group(1), split_args(m.group(2))
+    if op == "MOVQ" and len(args) == 2:
+        a, b = args
+        fp = re.match(r"\w+\+(\d+)\(FP\)$", a)
+        if fp:
+            return "SMOVQ_fp %d %s" % (int(fp.group(1)), sreg(b))
+        if a.startswith("$"):
+            return "SMOVQ_imm %d %s" % (num(a), sreg(b))
+        raise Bad("unsupported MOVQ form: " + l)
+    if op == "SHRQ" and len(args) == 2:
+        return "SSHRQ %d %s" % (num(args[0]), sreg(args[1]))
+    if op == "SHRW" and len(args) == 2:
+        return "SSHRW %d %s" % (num(args[0]), sreg(args[1]))
+    if op == "MOVWLZX" and len(args) == 2:
+        d, b_, i = smem(args[0])
+        return "SMOVWLZX %d %s %s %s" % (d, b_, i, sreg(args[1]))
+    if op == "MOVBLZX" and len(args) == 2:
+        a = args[0].strip()
+        if not a.endswith("B") or a[:-1] not in SREGS:
+            raise Bad("byte register expected: " + a)
+        return "SMOVBLZX %s %s" % (sreg(a[:-1]), sreg(args[1]))
+    if op == "XORL" and len(args) == 2:
+        return "SXORL %s %s" % (sreg(args[0]), sreg(args[1]))
+    if op == "MOVW" and len(args) == 2:
+        d, b_, i = smem(args[1])
+        return "SMOVW_st %s %d %s %s" % (sreg(args[0]), d, b_, i)
+    if op == "INCQ" and len(args) == 1:
+        return "SINCQ %s" % sreg(args[0])
+    raise Bad("unsupported instruction in a scalar kernel: " + l)
+
+
+def translate_scalar(src):
+    macros, funcs = parse(src)
+    out = ["(* GENERATED by tools/asm2coq.py from gf2p16/slice_amd64.s (scalar kernels) - do not edit *)",
+           "From Coq Require Import List NArith. Import ListNotations.",
+           "From Gopar Require Import Model.Base Model.ScalarAsm.", "Open Scope N_scope.", ""]
+    for f in SCALAR_TARGETS:
+        if f not in funcs:
+            raise Bad("routine %s not found in the assembly file" % f)
+        lines = expand(funcs[f], macros)
+        if len(lines) < 4 or lines[-1] != "RET":
+            raise Bad("%s does not end in RET" % f)
+        # ... loop: body ; CMPQ R8, CX ; JLT $0, loop ; RET
+        if lines.count("loop:") != 1 or [x.strip() for x in lines[-2].split(None, 1)[0:1]] != ["JLT"] or lines[-2].split(None, 1)[1].replace(" ", "") != "$0,loop":
+            raise Bad("%s: expected  loop: ... CMPQ R8, CX ; JLT $0, loop ; RET" % f)
+        cm = lines[-3].split(None, 1)
+        if cm[0] != "CMPQ" or [a.strip() for a in cm[1].split(",")] != ["R8", "CX"]:
+            raise Bad("%s: the loop must close with CMPQ R8, CX (signed compare of the index with the count)" % f)
+        k = lines.index("loop:")
+        pre, body = lines[:k], lines[k + 1:-3]
+        if any(x.endswith(":") or x.startswith("J") or x.startswith("CMP") for x in pre + body):
+            raise Bad("%s: unexpected label, jump or compare" % f)
+        out.append(emit_slist("gen_%s_pre" % f, [sinstr(x) for x in pre]))
+        out.append(emit_slist("gen_%s_body" % f, [sinstr(x) for x in body]))
+    return "\n".join(out)
+
+
+def emit_slist(name, items):
+    body = ";\n    ".join(items)
+    return "Definition %s : list sinstr :=\n  [ %s ].\n" % (name, body)
+
+
 def emit_list(name, items):
     body = ";\n    ".join(items)
     return "Definition %s : list instr :=\n  [ %s ].\n" % (name, body)
@@ -198,7 +284,7 @@ def translate(src):
 def main():
     src = open(sys.argv[1]).read()
     try:
-        v = translate(src)
+        v = translate_scalar(src) if len(sys.argv) > 3 and sys.argv[3] == "scalar" else translate(src)
     except Bad as e:
         sys.stderr.write("asm2coq: %s\n" % e)
         sys.exit(2)
